@@ -87,7 +87,8 @@ func (s *SemMap) release(key interface{}, w *Weighted, n int) {
 	s.mux.Lock()
 	defer s.mux.Unlock()
 	var empty = w.release(n)
-	if empty {
+	// only drop the entry when nobody waits and nobody still holds it
+	if empty && w.cur == 0 {
 		delete(s.m, key)
 		return
 	}
